@@ -386,3 +386,108 @@ def replay_links_visible(w):
     text = sf.FortranBase.__str__(o)
     linked = "<a " in text
     return linked != (w["visible"] and w["has_url"]), {"printed": text, "visible": w["visible"], "has_url": w["has_url"]}
+
+
+# ---------------------------------------------------------------------------------------
+# O5: composition — the real parser, correlate() and prune on a symbolic project: what stays listed is exactly what the
+# `display` setting selects, with the accessibility Fortran's rules give each entity
+# ---------------------------------------------------------------------------------------
+from fv import parserh as _parserh, choice as _choice  # noqa: E402
+from fv.choice import CV as _CV  # noqa: E402
+
+DISPLAYS = [["public"], ["public", "protected"], ["private"], ["protected"], ["public", "private", "protected"], ["private", "protected"]]
+D0 = [("implicit none", "public"), ("private", "private"), ("PRIVATE", "private"), ("public", "public")]
+SB_ACC = [("implicit none", None), ("private :: sb", "private"), ("public :: sb", "public"), ("PRIVATE SB", "private")]
+
+
+def _o5_files(d0, sbacc):
+    return {
+        "a.f90": ["module shapes_m", d0, sbacc,
+                  "integer :: va", "integer, public :: vb", "integer, private :: vc", "integer, protected :: vd",
+                  "type ta", "integer :: c", "end type ta", "type, private :: tb", "integer :: c", "end type tb",
+                  "type, public :: tc", "integer :: c", "end type tc",
+                  "interface", "module subroutine ms()", "end subroutine ms", "end interface",
+                  "contains", "subroutine sa()", "end subroutine sa", "subroutine sb()", "end subroutine sb",
+                  "end module shapes_m"],
+        "b.f90": ["submodule (shapes_m) shapes_impl", "real :: cached", "integer, parameter :: kk = 1",
+                  "type tsub", "integer :: c", "end type tsub",
+                  "contains", "module subroutine ms()", "end subroutine ms", "subroutine helper()", "end subroutine helper",
+                  "end submodule shapes_impl"],
+    }
+
+
+def o5_expected(default, sbacc, display):
+    """names that stay listed per container list (F2008 5.3.2: explicit attribute/statement, else the module default; nothing
+    declared in a submodule is accessible from outside: private)"""
+    acc = {"va": default, "vb": "public", "vc": "private", "vd": "protected", "ta": default, "tb": "private", "tc": "public",
+           "sa": default, "sb": sbacc or default}
+    keep = lambda names: sorted(n for n in names if acc[n] in display)
+    sub = lambda names: sorted(names) if "private" in display else []
+    return {"module.variables": keep(["va", "vb", "vc", "vd"]), "module.types": keep(["ta", "tb", "tc"]),
+            "module.subroutines": keep(["sa", "sb"]),
+            "submodule.variables": sub(["cached", "kk"]), "submodule.types": sub(["tsub"]), "submodule.subroutines": sub(["helper"])}
+
+
+def _o5_observe(p):
+    m = [x for x in p.modules if str(x.name).lower() == "shapes_m"][0]
+    s = p.submodules[0]
+    nm = lambda lst: sorted(str(e.name).lower() for e in lst)
+    return {"module.variables": nm(m.variables), "module.types": nm(m.types), "module.subroutines": nm(m.subroutines),
+            "submodule.variables": nm(s.variables), "submodule.types": nm(s.types), "submodule.subroutines": nm(s.subroutines)}
+
+
+def replay_o5(w):
+    import ford.sourceform as sf
+    old = sf.namelist
+    sf.namelist = sf.NameSelector()
+    try:
+        p = _parserh.project_concrete(_o5_files(w["d0"], w["sbacc"]), display=list(w["display"]), proc_internals=True)
+        got = _o5_observe(p)
+    finally:
+        sf.namelist = old
+    diff = {k: (got[k], w["expected"][k]) for k in got if got[k] != w["expected"][k]}
+    return bool(diff), {"display": w["display"], "default statement": w["d0"], "access statement": w["sbacc"],
+                        "differences (ford keeps, selected by display)": diff}
+
+
+@obligation("C05", "O5.parsed-project-selection", engine="SX(CV)", timeout=1800)
+def parsed_selection(ctx):
+    """real parser + correlate + prune on a module and its submodule: for every display setting, module default and access
+    statement the entities still listed are exactly those whose Fortran accessibility is selected (submodule contents: private)"""
+    import ford.sourceform as sf
+    import ford.fortran_project as fp
+
+    ctx.encode_fn(sf.FortranContainer.__init__)
+    ctx.encode_fn(sf.FortranCodeUnit.prune)
+    ctx.encode_fn(sf.FortranBase.filter_display)
+    ctx.encode_fn(sf.FortranBase._set_display)
+    ctx.encode_fn(fp.Project.correlate)
+    ctx.stubs.append("FortranReader replaced by the symbolic statement lists of two files")
+    ctx.bounds.update({"display settings": len(DISPLAYS), "default statements": len(D0), "access statements": len(SB_ACC)})
+
+    def h(E):
+        d0 = _CV.choice(E, "d0", D0)
+        sb = _CV.choice(E, "sbacc", SB_ACC)
+        disp = _CV.choice(E, "display", list(range(len(DISPLAYS))))
+        display = disp.concretize()  # the setting is a list of words handed to ProjectSettings: one path per setting
+        want = _choice.apply(lambda a, b: o5_expected(a, b, DISPLAYS[display]), d0[1], sb[1])
+        E.e.snapshot = lambda m: {"d0": _choice.value_in_model(m, d0)[0], "sbacc": _choice.value_in_model(m, sb)[0],
+                                  "display": DISPLAYS[display], "expected": _choice.value_in_model(m, want)}
+        got = _parserh.project(_o5_files(d0[0], sb[0]), post=_o5_observe, display=list(DISPLAYS[display]), proc_internals=True)
+        E.reachable("pruned")
+        for k in sorted(got):
+            E.require(_choice.apply(lambda w_, g=got[k], k=k: g == w_[k], want), f"{k}: listed entities differ from the display selection")
+
+    E = sym.Engine(ctx, max_paths=20000, incremental=True)
+    found = E.explore(h)
+    seen = set()
+    for (label, m, pc), snap in zip(found, E.snapshots):
+        if label in seen or not snap:
+            continue
+        seen.add(label)
+        ctx.report(label, snap, replay_o5)
+    if E.reached.get("pruned"):
+        ctx.twins += 1
+    else:
+        ctx.inconclusive.append("vacuity: project never pruned")
+    ctx.sample({"paths": E.paths})
